@@ -4,15 +4,16 @@
 # scratch worktree and the check - taken from a snapshot of the COMMITTED /verif so that editing
 # /verif meanwhile cannot disturb it - is pointed at it (QUINN_REPO) with its own build/output dirs.
 SEED=$1; PROP=$2; TIER=${3:-quick}
-WT=/tmp/wt/SEEDRUN
-SNAP=/tmp/wt/vsnap
+W=${SEEDW:-}            # worker suffix: several seeds can be run side by side, each worker with its own worktree / build / output
+WT=/tmp/wt/SEEDRUN$W
+SNAP=/tmp/wt/vsnap$W
 if [ ! -d $WT ]; then git -C /repo worktree add -q --detach $WT HEAD || exit 2; fi
 cd $WT && git checkout -q --detach $(git -C /repo rev-parse HEAD) 2>/dev/null; git checkout -q -- . && git clean -fdq
 git apply $SEED/patch.diff || { echo "patch does not apply"; exit 2; }
 rm -rf $SNAP && mkdir -p $SNAP && git -C /verif archive HEAD | tar -x -C $SNAP
 cd $SNAP
-QUINN_REPO=$WT VERIF_BUILD=/verif/.build-seed VERIF_OUT=/verif/out-seed VERIF_EVID=/verif/out-seed/evidence ./check $PROP $TIER > $SEED/check_${PROP}_${TIER}.log 2>&1; rc=$?
-cp /verif/out-seed/evidence/$PROP.json $SEED/evidence_${PROP}_${TIER}.json 2>/dev/null
+QUINN_REPO=$WT VERIF_BUILD=/verif/.build-seed$W VERIF_OUT=/verif/out-seed$W VERIF_EVID=/verif/out-seed$W/evidence ./check $PROP $TIER > $SEED/check_${PROP}_${TIER}.log 2>&1; rc=$?
+cp /verif/out-seed$W/evidence/$PROP.json $SEED/evidence_${PROP}_${TIER}.json 2>/dev/null
 cd $WT && git checkout -q -- . && git clean -fdq
 rm -rf $SNAP
 echo "SEED $(basename $SEED) property=$PROP tier=$TIER rc=$rc :: $(grep -E '^VIOLATION|^  obligation|^INCONCLUSIVE' $SEED/check_${PROP}_${TIER}.log | head -4 | tr '\n' ' ')"
